@@ -99,11 +99,25 @@ def spec_request(ns, case):
     return exp, rl, rr
 
 
-def make_response(ns, okm, vals):
-    """vals: ints in tuple-field order; enum-typed fields are given by value"""
+def make_response(ns, okm, vals, fmt="native"):
+    """vals: ints in tuple-field order; enum-typed fields are given by value (netqasm numbering).
+    fmt: "native" (LinkLayerOKType*), "qlink_enum" / "qlink_int" (qlink-interface 1.0 Res* object with the
+    Bell state of the same NAME given as qlink enum member / as its plain integer value)"""
     qc = ns.qc
     cls = qc.LinkLayerOKTypeM if okm else qc.LinkLayerOKTypeK
     d = dict(zip(cls._fields, vals))
+    if fmt != "native":
+        import qlink_interface as ql
+
+        qb = ql.BellState[qc.BellState(d["bell_state"]).name]
+        common = dict(create_id=d["create_id"], directionality_flag=d["directionality_flag"],
+                      sequence_number=d["sequence_number"], purpose_id=d["purpose_id"],
+                      remote_node_id=d["remote_node_id"], goodness=d["goodness"],
+                      bell_state=qb if fmt == "qlink_enum" else qb.value)
+        if okm:
+            return ql.ResMeasureDirectly(measurement_outcome=d["measurement_outcome"],
+                                         measurement_basis=ql.MeasurementBasis(d["measurement_basis"]), **common)
+        return ql.ResCreateAndKeep(logical_qubit_id=d["logical_qubit_id"], time_of_goodness=d["goodness_time"], **common)
     d["type"] = qc.ReturnType(d["type"])
     d["bell_state"] = qc.BellState(d["bell_state"])
     if okm:
@@ -161,7 +175,7 @@ def run_case(repo, ns, case, executor="rec"):
                     hardware=case.get("hardware", "generic"), max_qubits=case.get("max_qubits", 5))
     res.pipe = pipe
     sock = pipe.epr_socket("Bob", epr_socket_id=case["sock"], remote_epr_socket_id=case.get("remote_sock", 0))
-    resps = [make_response(ns, okm, v) for v in case["resp"]]
+    resps = [make_response(ns, okm, v, case.get("resp_format", "native")) for v in case["resp"]]
     res.bookkeeping = None
     res.results_array = None
     if resps:
